@@ -32,6 +32,7 @@ THEOREMS = [
     'C10_material_cards_duplicates', 'C10_material_cards_recognised_linked',
     'C10_one_block_per_material_density_linked',
     'C10_fraction_spelling_copied_linked',
+    'C10_write_compositions_agree_linked', 'C10_atom_density_block_linked',
     'C10_element_table', 'C10_atomic_number_range',
     'C10_zaid_split', 'C10_card_converted', 'C10_mixed_signs_rejected',
     'C10_repeated_nuclide', 'C10_unused_card_still_checked',
@@ -59,7 +60,9 @@ TRUSTED = [
     'through C14\'s model of both (tied in C14)',
     'the final cell dictionary (importance, universe, fillid, materialID, '
     'density of every cell after LIKE/lattice/FILL development) is captured '
-    'from the run, not modelled here (C09, C12, C15)',
+    'from the run, not modelled here (C09, C12, C15); '
+    'C10_write_compositions_agree_linked proves that C09\'s model of '
+    'writeT4Composition over ITS cell dictionary gives the same text',
     'harness: generators, line reader of the COMPOSITION block, PEG shim '
     'replacing TatSu',
 ]
